@@ -64,3 +64,89 @@ func (in *c19Interp) mapStore(mv c19MapVal, key, v c19Value) bool {
 	*mv.vals = append(*mv.vals, v)
 	return true
 }
+
+// c19Int64 is constant.Int64Val without its panic on a value that is not an integer.
+func c19Int64(v constant.Value) (int64, bool) {
+	if v == nil || v.Kind() != constant.Int {
+		return 0, false
+	}
+	return constant.Int64Val(v)
+}
+
+// evalSlice evaluates s[lo:hi] on a concrete string or slice with concrete bounds (zero padding by
+// `"000"[len(s):] + s`, trimming a prefix), opaque otherwise.
+func (in *c19Interp) evalSlice(x *ast.SliceExpr, env *c19Env) c19Value {
+	base := in.eval(x.X, env)
+	bound := func(e ast.Expr, def int64) (int64, bool) {
+		if e == nil {
+			return def, true
+		}
+		return c19AsInt(in.eval(e, env))
+	}
+	opaque := func() c19Value { return in.opaque(in.info.TypeOf(x), in.src(x)) }
+	if x.Slice3 {
+		return opaque()
+	}
+	switch b := base.(type) {
+	case c19Const:
+		str, ok := c19AsString(b)
+		if !ok {
+			return opaque()
+		}
+		lo, ok1 := bound(x.Low, 0)
+		hi, ok2 := bound(x.High, int64(len(str)))
+		if !ok1 || !ok2 {
+			return opaque()
+		}
+		if lo < 0 || hi < lo || hi > int64(len(str)) {
+			panic(c19Abort{why: "panic"})
+		}
+		return c19Const{v: constant.MakeString(str[lo:hi]), typ: b.typ}
+	case c19Slice:
+		lo, ok1 := bound(x.Low, 0)
+		hi, ok2 := bound(x.High, int64(len(b.elems)))
+		if !ok1 || !ok2 {
+			return opaque()
+		}
+		if lo < 0 || hi < lo || hi > int64(len(b.elems)) {
+			panic(c19Abort{why: "panic"})
+		}
+		return c19Slice{elems: b.elems[lo:hi]}
+	}
+	return opaque()
+}
+
+// havoc forgets what is known about the objects reachable from v (a pointer, a struct, a closure's captured
+// variables): a function that could not be evaluated was handed them.
+func (in *c19Interp) havoc(v c19Value, by string, depth int) {
+	if depth > 3 {
+		return
+	}
+	switch x := v.(type) {
+	case c19Ptr:
+		in.havoc(x.obj, by, depth)
+	case *c19Obj:
+		if x.havoc != "" {
+			return
+		}
+		x.havoc = by
+		for f := range x.fields {
+			x.fields[f] = in.opaque(f.Type(), f.Name()+" after "+by)
+		}
+		x.sbBad = true
+	case c19CellPtr:
+		x.cell.v = in.opaque(types.Typ[types.Invalid], "variable after "+by)
+	case c19Closure:
+		for e := x.env; e != nil; e = e.parent {
+			for o, c := range e.vars {
+				switch c.v.(type) {
+				case c19Ptr, *c19Obj:
+					in.havoc(c.v, by, depth+1)
+				case c19Closure, c19FuncVal, c19Nil:
+				default:
+					c.v = in.opaque(o.Type(), o.Name()+" after "+by)
+				}
+			}
+		}
+	}
+}
